@@ -5,7 +5,10 @@ patch="$1"; shift
 cd /repo || exit 2
 if ! git diff --quiet; then echo "/repo has uncommitted changes"; exit 2; fi
 git apply "$patch" || { echo "patch does not apply"; exit 2; }
-trap 'git -C /repo checkout -- . ' EXIT
+# evidence files written while a seeded change is applied must not replace the ones of the unchanged tree
+evbak=$(mktemp -d)
+cp -a /verif/evidence/. "$evbak"/ 2>/dev/null
+trap 'git -C /repo checkout -- . ; cp -a "$evbak"/. /verif/evidence/ 2>/dev/null; rm -rf "$evbak"' EXIT
 for p in "$@"; do
   (cd /verif && VERIF_SEED=${VERIF_SEED:-1} ./check "$p" --tier quick 2>&1 | grep -v "^      " | tail -6 | cut -c1-400)
   echo "== $p exit=${PIPESTATUS[0]}"
